@@ -252,7 +252,10 @@ class Executor:
         d = w.cache_json()
         if not isinstance(d, dict) or "codebase" not in d:
             return {"noop": "no_valid_cache"}
-        d["version"] = op["version"]
+        if op["version"] == "<absent>":
+            d.pop("version", None)        # a cache written before the field existed
+        else:
+            d["version"] = op["version"]
         foreign = op["version"] != running_version()
         if foreign and op.get("marker", True):
             # a cache of another version must not be reused: make reuse visible
@@ -411,8 +414,7 @@ class Executor:
                     obs["fault_fired"]["path"], obs["outcome"], obs.get("exc", ""), obs.get("msg", "")), idx, obs))
             self.cache_owner = None
             self.last_scan_report = None
-            if self.wl in ("C09", "C10"):
-                self.pending_fault = {"op": "scan_read_fault", **obs["fault_fired"]}
+            # no cache fault happened: the scans that follow get the ordinary C09 oracles
             return obs
         faulted = fault is not None and obs.get("fault_fired") is not None
         if faulted:
